@@ -9,6 +9,7 @@ From Coq Require Import Init.Byte ZArith List Bool.
 Require Import Ojg.Base.Bytes Ojg.Base.Jv Ojg.Json.Machine Ojg.Json.Chunk.
 Require Import Ojg.Json.Ref Ojg.Json.RefParse Ojg.Json.Sweep Ojg.Json.DataInv Ojg.Json.Frontends.
 Require Import Ojg.Json.Sweep_parser Ojg.Json.Sweep_gen Ojg.Json.DSweeps Ojg.Json.ValueSim Ojg.Json.ValueSimSweeps Ojg.Json.ChunkSim.
+Require Import Ojg.Json.Sweep_tokenizer Ojg.Json.TokSim Ojg.Json.TokSweeps.
 Import ListNotations.
 
 Theorem C03_chunks_control : forall K cs,
@@ -73,6 +74,37 @@ Example C03_values_example :
   ref_parse true false (bs [123;34;97;92;110;34;58;91;116;114;117;101;44;49;50;93;125]%N) =
     Some [JObj [([x61; x0a], JArr [JBool true; JBig [x31; x32]])]].
 Proof. vm_compute. split; reflexivity. Qed.
+
+
+(* oj.Tokenizer, for EVERY list of read buffers: the callbacks are the reference parser's event
+   stream of the whole text (ref_events: object / array starts and ends, keys, strings with every
+   escape, literals, in order, duplicates kept), number events up to the number builder (EvR);
+   the text is rejected exactly when the reference rejects it, and the reference event stream
+   exists exactly when the reference document parser accepts. *)
+Definition C03_tokenizer_events (one : bool) (K : cfg) : Prop :=
+  forall cs,
+    match run_all_chunks K cs with
+    | OOk _ evs => exists revs, ref_events one (concat cs) = Some revs /\ Forall2 EvR revs evs
+    | OErr _ _ => ref_events one (concat cs) = None
+    | _ => False
+    end.
+Theorem C03_tokenizer_events_single : C03_tokenizer_events true fe_tokenizer.
+Proof. exact (tok_chunks_refine true fe_tokenizer eq_refl sweep_tokenizer toksweep_tokenizer). Qed.
+Theorem C03_tokenizer_events_multi : C03_tokenizer_events false fe_tokenizer_multi.
+Proof. exact (tok_chunks_refine false fe_tokenizer_multi eq_refl sweep_tokenizer_multi toksweep_tokenizer_multi). Qed.
+Theorem C03_events_accept_as_parser : forall one w, ref_events one w = None <-> ref_parse one false w = None.
+Proof. exact ref_events_accepts. Qed.
+
+Example C03_tokenizer_example :
+  let bs := map (fun n => n2b n) in
+  run_all_chunks fe_tokenizer [bs [123;34;97;92]%N; bs [110;34;58;91;116;114]%N; bs [117;101;44;49]%N; bs [50;93;125]%N] =
+    OOk [] [EObjStart; EKey [x61; x0a]; EArrStart; EBool true; EInt 12; EArrEnd; EObjEnd] /\
+  ref_events true (bs [123;34;97;92;110;34;58;91;116;114;117;101;44;49;50;93;125]%N) =
+    Some [EObjStart; EKey [x61; x0a]; EArrStart; EBool true; ENumber [x31; x32]; EArrEnd; EObjEnd].
+Proof. vm_compute. split; reflexivity. Qed.
+
+Print Assumptions C03_tokenizer_events_single.
+Print Assumptions C03_tokenizer_events_multi.
 
 Print Assumptions C03_values_parser.
 Print Assumptions C03_chunkings_agree_gen_multi.
